@@ -374,6 +374,9 @@ func c09Plugin(c *wk.Ctx, r *wk.Rand, idx int64) {
 		}
 		for ei := 0; ei < r.Intn(3); ei++ {
 			eid := fmt.Sprintf("emit%d", ei)
+			if ei == 0 && idx%2 == 1 {
+				eid = "sig0" // a step may receive and emit a signal under the same ID: two tables, two schemas
+			}
 			emitters[eid] = schema.NewSignalSchema(eid, mkScope(id+".signal_emitters."+eid), nil)
 		}
 		if len(handlers) == 0 && idx%2 == 0 {
